@@ -343,6 +343,10 @@ class BatchWorld(World):
     def _scenario(self, ctx, registered):
         plan, sched = ctx.plan, ctx.sched
         target = plan.get("target", "instance")
+        # marshal writes back-references for shared objects: the size of a message depends on the identity structure of the
+        # argument values.  A generated plan (interned literals, shared constants) and the same plan loaded from a replay file
+        # differ in exactly that, so every run works on a JSON round trip of the calls.
+        jp = json.loads(json.dumps({k: plan.get(k) for k in ("calls", "second", "again", "peer")}))
         config.SERIALIZER = plan["serializer"]
         # the handshake reply carries the exposed-member SETS of the object: their iteration order depends on the string
         # hash seed, and so would the compressed length (-> recv sizes in the run digest).  All clients therefore connect
@@ -524,9 +528,9 @@ class BatchWorld(World):
                             u["getB"] = safe_get(pb)
             return body
 
-        batches = [(copy.deepcopy(plan["calls"]), plan["mode"])]
-        if plan.get("second") is not None:
-            batches.append((copy.deepcopy(plan["second"]), plan["mode2"]))
+        batches = [(jp["calls"], plan["mode"])]
+        if jp.get("second") is not None:
+            batches.append((jp["second"], plan["mode2"]))
         ths = []
         if target == "instance":
             u0 = new_unit("client 1", "instance", batches)
@@ -554,15 +558,15 @@ class BatchWorld(World):
                 ths.append(threading.Thread(target=client, args=([uriA, uriB], body_ab), name="client"))
         else:
             gens = [batches]
-            if plan.get("again") is not None:
-                gens.append([(copy.deepcopy(plan["again"]), plan.get("mode3", "normal"))])
+            if jp.get("again") is not None:
+                gens.append([(jp["again"], plan.get("mode3", "normal"))])
             spec1 = {"gens": gens, "start": plan.get("start", 0), "a_first": plan["a_first"]}
             ths.append(threading.Thread(target=client, args=([uriA, uriB], class_body("client 1", spec1)), name="client"))
-            pe = plan.get("peer")
+            pe = jp.get("peer")
             if pe is not None:
-                pb_ = [(copy.deepcopy(pe["calls"]), pe["mode"])]
+                pb_ = [(pe["calls"], pe["mode"])]
                 if pe.get("second") is not None:
-                    pb_.append((copy.deepcopy(pe["second"]), pe["mode2"]))
+                    pb_.append((pe["second"], pe["mode2"]))
                 spec2 = {"gens": [pb_], "start": pe.get("start", 0), "a_first": pe.get("a_first", True)}
                 ths.append(threading.Thread(target=client, args=([uriA, uriB], class_body("client 2", spec2)), name="client-peer"))
         if plan["bg"]:
